@@ -558,6 +558,8 @@ func (req *Request) Process(store StorageClient, stat *Stats) (resp *Response, e
 		key := req.Keys[0]
 		add, err := strconv.Atoi(string(req.Item.Body))
 		if err != nil {
+			// the storage never sees this command: undo Read's SetData.AddCount
+			cmem.DBRL.SetData.SubCount(1)
 			resp.Status = "CLIENT_ERROR"
 			resp.Msg = "invalid number"
 			break
